@@ -154,7 +154,10 @@ def modelStep (s : MState) (line : String) : MState × String :=
     | _, _, _, _, _, _, _ => (s, "bad-op")
   | ["sleep", d] =>
     match d.toNat? with
-    | some d => let (w, evs) := s.w.sleep (ms d); fin w evs
+    | some d =>
+      -- the model's "never" is a time no history may reach (Model.Blockwise.never)
+      if s.w.now + ms d ≥ never then (s, "bad-op horizon") else
+      let (w, evs) := s.w.sleep (ms d); fin w evs
     | none => (s, "bad-op")
   | ["tick", sd] =>
     match parseSide sd with
